@@ -222,6 +222,9 @@ def handle : List String → Option String
   | ["tle.unflq", s, n, d] => some (match s.toNat?, n.toInt?, d.toNat? with
       | some s, some n, some d => "ok " ++ hex (unfloat (unflQ (s = 1) ⟨n, d⟩))
       | _, _, _ => "bad-op")
+  | ["tle.wrapq", n, d] => some (match n.toInt?, d.toNat? with
+      | some n, some d => let w := wrapDeg ⟨n, d⟩; s!"ok {w.num} {w.den} {fixQ 4 w}"
+      | _, _ => "bad-op")
   | ["tle.epochabs", t] => some (match t.toInt? with
       | some t => s!"ok {(epochOfAbs t).1} {(epochOfAbs t).2}"
       | none => "bad-op")
